@@ -1,25 +1,53 @@
 /-
   C02, part hs — heap search / bucket search (deterministic and unambiguous grammars).
 
-  FULL STATEMENT (not proved; it is false on the code as it is, see the findings):
-    for every finite grammar G with positive weights there is a number of `next` steps after which
-    the machine has stopped and its output is a permutation of the language of G.
+  FULL STATEMENT: for every finite grammar G with positive weights there is a number of `next`
+    steps after which the machine has stopped and its output is a permutation of the language of G.
+    PROVED for heap search (threshold 0, no filter) on acyclic context-free grammars: C02_HS_full.
+    False on state-threading TTCFGs and on recursive grammars (findings below).
 
-  Proved here, for all inputs:
-    * the heapq port keeps the multiset on push and pop, and pop fails exactly on the empty heap
-      (so a program leaves a heap only by being popped, and enters it only by a push);
+  Proved here, for all inputs (heap search and bucket search on deterministic grammars, model
+  PS/Model/Enum/HeapSearch.lean; proofs by rule induction on the big-step relation `HS.Big` of
+  the machine, PS/Proofs/Enum/HSBig.lean):
+    * the heapq port keeps the multiset on push and pop, and pop fails exactly on the empty heap;
+    * SOUNDNESS (item 4), context-free grammars: the state invariant `HS.SInv` (everything stored in
+      `hash_table_program[S]`, `heaps[S]`, `succ[S]` is derivable from `S`; the stored priority is the
+      priority function `prioSpec` applied to the program — for heap search its probability)
+      holds initially, is kept by `query` and by `next`, and whatever is yielded is a member of the
+      grammar: C02_HS_inv_init, C02_HS_query_sound, C02_HS_sound_step, C02_HS_sound,
+      C02_HS_stored_priority, C02_HS_compute_priority;
+    * NO DUPLICATES (item 5), any tree-traversing grammar, without filter: `HS.NInv` (heap programs
+      pairwise distinct, popped programs never come back, `succ[S]` injective and only growing):
+      C02_HS_query_nodup, C02_HS_nodup_step, C02_HS_nodup;
   and, on concrete witnesses evaluated by the kernel on the models:
     * finding_C02_F2 — the unambiguous heap search as it is yields 10 of the 14 programs of a
       three-start grammar, and (C02_HS_fix_F2_witness) all 14 after the proposed fix;
-    * finding_C02_F3 — heap search on a state-threading TTCFG never yields a member.
-  Completeness, termination, soundness and absence of duplicates of the whole machine are NOT
-  proved; they are checked on every generated case against the independent language oracle and by
-  exact correspondence of the model with the implementation.
+    * finding_C02_F3 — heap search on a state-threading TTCFG never yields a member;
+    * finding_C02_HS_recursive (finding C03-F4) — on a recursive grammar (`CFG.infinite`) heap search stops after 5
+      programs and never yields a member (`_reevaluate_` leaves the max-priority tables out of sync).
+    * COMPLETENESS WHEN THE GENERATOR STOPS (item 6, partial correctness), acyclic context-free
+      grammars, heap search with threshold 0 and no filter: C02_HS_complete, C02_HS_exactly_once
+      (output duplicate-free and equal to the language), C02_HS_exhausted_complete;
+    * TERMINATION: the prologue returns with enough fuel (C02_HS_prologue_total), the generator loop
+      stops (C02_HS_stops_partial, C02_HS_total_partial), hence the FULL STATEMENT for heap search on
+      acyclic context-free grammars: C02_HS_full — for every fuel ≥ HS.enoughFuel there is a number of
+      `next` steps after which the generator has stopped and its output is a permutation of the
+      language;
+  NOT proved: completeness / termination for bucket search and for a positive threshold,
+  no-duplicates with a filter, and everything about the unambiguous-grammar machine (UHeapSearch); they are checked on
+  every generated case against the independent language oracle and by exact correspondence of the
+  model with the implementation.
 -/
 import PS.Model.Enum.HeapSearch
 import PS.Model.Enum.UHeapSearch
 import PS.Proofs.Enum.Heapq
 import PS.Proofs.Enum.HeapSearch
+import PS.Proofs.Enum.HSSoundInit
+import PS.Proofs.Enum.HSPrio
+import PS.Proofs.Enum.HSNodupRun
+import PS.Proofs.Enum.HSCompleteCheck
+import PS.Proofs.Enum.HSStops
+import PS.Proofs.Enum.HSPrologueTotal
 namespace PS.C02HS
 open PS PS.G
 
@@ -98,5 +126,260 @@ theorem finding_C02_F3 :
     (take E3 200 40 (Gen.new w3G) []).map (fun r => (r.2.1.length, r.2.2, r.2.1.contains lost)) = some (20, true, false) := by
   decide +kernel
 end F3
+
+/-! ### soundness of the machine as a state invariant (item 4), context-free grammars -/
+section Sound
+open PS.HS
+variable {S π : Type} [DecidableEq S]
+
+/-- the invariant: `HS.SInv E s` says that for every non-terminal `nt`
+    (1) every program of `hash_table_program[nt]` is derivable from `nt` (`gen`),
+    (2) every element of `heaps[nt]` is in `hash_table_program[nt]`,
+    (3) every value of `succ[nt]` is in `hash_table_program[nt]`;
+    `HS.GInv E g` adds, before the prologue has run, that the max-priority tables hold derivable
+    programs.  It holds for the fresh generator object … -/
+theorem C02_HS_inv_init (E : Env S Unit π) : GInv E (Gen.new E.G) := ginv_new E
+
+/-- … and every `next(generator)` keeps it and yields a program derivable from the start symbol
+    (any priority type, any threshold, any filter, `dropDeleted` either way; `RowsNodup`: a Python
+    dict has no repeated key) -/
+theorem C02_HS_sound_step (E : Env S Unit π) (hnd : RowsNodup E.G) (fuel : Nat) (g g' : Gen S Unit π)
+    (r : Option Prog) (hg : GInv E g) (h : HS.next E fuel g = some (g', r)) :
+    GInv E g' ∧ ∀ p, r = some p → gen E.G p E.G.start = true := next_sound E hnd fuel g g' r hg h
+
+/-- the inner step: `query(S, program)` keeps the table invariant and returns a program derivable from `S` -/
+theorem C02_HS_query_sound (E : Env S Unit π) (n : Nat) (s s' : St S Unit π) (nt : NT S Unit)
+    (p r : Option Prog) (hs : SInv E s) (h : query E n s nt p = some (s', r)) :
+    SInv E s' ∧ ∀ q, r = some q → gen E.G q nt = true := query_sound E hs h
+
+/-- **soundness**: whatever heap search / bucket search yields on a context-free grammar is a
+    member of the grammar (`program in grammar` of the implementation, by `contains_eq_gen`) -/
+theorem C02_HS_sound (E : Env S Unit π) (hnd : RowsNodup E.G) (fuel k : Nat) (g' : Gen S Unit π)
+    (out : List Prog) (b : Bool) (h : take E fuel k (Gen.new E.G) [] = some (g', out, b)) :
+    ∀ p ∈ out, contains E.G p = true := by
+  intro p hp
+  rw [contains_eq_gen]
+  exact (take_sound E hnd fuel k _ _ _ _ _ (ginv_new E) (by intro q hq; cases hq) h).2 p hp
+
+/-- the stored priority is the priority function applied to the program: `SInv` also says that
+    the memo table of `compute_priority` agrees with the specification `prioSpec` and that every
+    heap element `(priority, program)` of `nt` has `priority = prioSpec program nt`; for heap search
+    (`probOps`) that is the probability of the program from `nt` (product of the rule weights) -/
+theorem C02_HS_stored_priority (E : Env S Unit Rat) (t : Rat) (hops : E.ops = probOps t) (s : St S Unit Rat)
+    (hs : SInv E s) (nt : NT S Unit) (e : Rat × Prog) (he : e ∈ s.heapOf nt) :
+    gen E.G e.2 nt = true ∧ e.1 = prob E.G E.W e.2 nt := by
+  have hg := hs.seen_gen nt e.2 (hs.heap_seen nt e he)
+  exact ⟨hg, prioSpec_prob E t hops e.2 nt e.1 hg (hs.heap_prio nt e he)⟩
+
+/-- `compute_priority(S, program)` returns the priority of the specification on derivable programs -/
+theorem C02_HS_compute_priority (E : Env S Unit π) (c : AList (Prog × NT S Unit) π) (hc : CacheOK E c)
+    (nt : NT S Unit) (prog : Prog) (hg : gen E.G prog nt = true) (c' : AList (Prog × NT S Unit) π) (v : π)
+    (h : computePrio E c nt prog = some (c', v)) : prioSpec E prog nt = some v ∧ CacheOK E c' :=
+  computePrio_spec E c hc nt prog hg c' v h
+
+/-! non-vacuity: `S0 → 1 | + S1 S1`, `S1 → 1 | x` -/
+def cInt : Ty := .base "int"
+def cOne : Sym := Sym.prim "1" cInt
+def cX : Sym := Sym.var 0 cInt
+def cPlus : Sym := Sym.prim "+" (.arrow cInt (.arrow cInt cInt))
+def cG : TT Nat Unit := ⟨(cInt, (0, ())), [((cInt, (0, ())), [(cOne, ([], ())), (cPlus, ([(cInt, 1), (cInt, 1)], ()))]),
+                                          ((cInt, (1, ())), [(cOne, ([], ())), (cX, ([], ()))])]⟩
+def cW : AList (NT Nat Unit) (AList Sym Rat) :=
+  [((cInt, (0, ())), [(cOne, 1/2), (cPlus, 1/2)]), ((cInt, (1, ())), [(cOne, 1/4), (cX, 3/4)])]
+def cE : Env Nat Unit Rat := { G := cG, W := cW, ops := probOps 0, filter := fun _ => true }
+
+theorem cG_rows : RowsNodup cG := rowsNodup_of_all cG (by decide)
+
+/-- the machine yields the 5 programs of the grammar and stops -/
+example : (take cE 50 10 (Gen.new cG) []).map (fun r => (r.2.1.length, r.2.2)) = some (5, true) := by
+  decide +kernel
+
+example : ∀ g' out b, take cE 50 10 (Gen.new cG) [] = some (g', out, b) → ∀ p ∈ out, contains cG p = true :=
+  fun g' out b h => C02_HS_sound cE cG_rows 50 10 g' out b h
+
+/-- `(+ x 1)` from `S0`: 1/2 · 3/4 · 1/4 -/
+example : prioSpec cE (.node cPlus [.node cX [], .node cOne []]) cG.start = some (3/32) := by decide +kernel
+example : (computePrio cE [((.node cX [], (cInt, (1, ()))), 3/4), ((.node cOne [], (cInt, (1, ()))), 1/4)] cG.start
+    (.node cPlus [.node cX [], .node cOne []])).map (·.2) = some (3/32) := by decide +kernel
+end Sound
+
+/-! ### no duplicates (item 5): heap search / bucket search without a filter -/
+section Nodup
+open PS.HS
+variable {S T π : Type} [DecidableEq S] [DecidableEq T]
+
+/-- the invariant `HS.NInv s` (any tree-traversing grammar, any priority type): for every `nt`
+    the programs of `heaps[nt]` are pairwise distinct and belong to `hash_table_program[nt]`;
+    every value of `succ[nt]` (= every program popped for `nt`) belongs to `hash_table_program[nt]`
+    and is NOT in `heaps[nt]` any more; `succ[nt]` is injective; `deleted = ∅`.
+    `query` keeps it, only adds entries to the `succ` tables (`Stable`) and returns the entry
+    `succ[nt][program]` of the new state: a program enters `heaps[nt]` at most once (the push is
+    guarded by `hash_table_program`), so what is popped for `nt` is pairwise distinct. -/
+theorem C02_HS_query_nodup (E : Env S T π) (n : Nat) (s s' : St S T π) (nt : NT S T) (p r : Option Prog)
+    (hs : NInv s) (h : query E n s nt p = some (s', r)) :
+    NInv s' ∧ Stable s s' ∧ ∀ q, r = some q → AList.lookup p (s'.succOf nt) = some q :=
+  query_nodup E hs h
+
+/-- one `next(generator)`: the yielded sequence stays the chain of `succ[start]` from the sentinel -/
+theorem C02_HS_nodup_step (E : Env S T π) (hf : ∀ p, E.filter p = true) (fuel : Nat) (g g' : Gen S T π)
+    (out : List Prog) (r : Option Prog) (hg : NGInv E g out) (h : HS.next E fuel g = some (g', r)) :
+    (∀ p, r = some p → NGInv E g' (out ++ [p])) ∧ (r = none → NGInv E g' out) :=
+  next_nodup E hf fuel g g' out r hg h
+
+/-- **no duplicates**: without a filter (`filter.accept` always true — the enumerators of C02; with a
+    filter see C12) the sequence yielded by heap search / bucket search has no repeated program.
+    Any tree-traversing grammar, any priority type, threshold, fuel and number of steps. -/
+theorem C02_HS_nodup (E : Env S T π) (hf : ∀ p, E.filter p = true) (fuel k : Nat) (g' : Gen S T π)
+    (out : List Prog) (b : Bool) (h : take E fuel k (Gen.new E.G) [] = some (g', out, b)) : out.Nodup :=
+  (take_ngInv E hf fuel k _ _ _ _ _ (ngInv_new E) h).nodup
+
+example : ∀ g' out b, take cE 50 10 (Gen.new cG) [] = some (g', out, b) → out.Nodup :=
+  fun g' out b h => C02_HS_nodup cE (fun _ => rfl) 50 10 g' out b h
+/-- also on the state-threading TTCFG of finding C02-F3 (which loses programs but repeats none) -/
+example : ∀ g' out b, take E3 200 40 (Gen.new w3G) [] = some (g', out, b) → out.Nodup :=
+  fun g' out b h => C02_HS_nodup E3 (fun _ => rfl) 200 40 g' out b h
+end Nodup
+
+/-! ### completeness (item 6, partial correctness): acyclic context-free grammars -/
+section Complete
+open PS.HS
+variable {S : Type} [DecidableEq S]
+
+/-- **COMPLETENESS when the generator stops** — heap search (`HeapSearch`, threshold 0, no filter) on an
+    acyclic context-free grammar: if after `k` calls of `next` the generator has raised `StopIteration`
+    (third component `true`), every member of the grammar was yielded.
+    `HS.CompHyp` (all decidable on a literal grammar, see `HS.compHyp_of_checks`): priorities are the
+    probabilities, weights non-negative and defined for every rule, `rank` strictly decreases from a
+    non-terminal to the non-terminals of its rules, dict keys distinct, no empty row, every
+    non-terminal used by a rule has a row, no filter.
+    Proof: DESIGN B.2 — (I2) seen = heap ∪ popped (`HS.CInv`, uses that `compute_priority` never
+    fails: `HS.computePrio_total`), (I3) every popped program has, at every argument position, either the
+    successor program pushed or an exhausted argument (`HS.big_i3`), exhausted heaps stay exhausted
+    (`HS.big_emptyStable`), the table structure (`HS.TInv`), then induction on the rank and on the
+    distance of the argument tuple from the first pops (`HS.exhausted_complete`).
+    That the generator does stop: `C02_HS_stops_partial`; on recursive grammars the statement is
+    false (`finding_C02_HS_recursive`). -/
+theorem C02_HS_complete (E : Env S Unit Rat) (rank : NT S Unit → Nat) (C : CompHyp E rank) (fuel k : Nat)
+    (g' : Gen S Unit Rat) (out : List Prog) (h : take E fuel k (Gen.new E.G) [] = some (g', out, true)) :
+    ∀ p, contains E.G p = true → p ∈ out := by
+  intro p hp
+  rw [contains_eq_gen] at hp
+  exact take_complete E rank C fuel k g' out h p hp
+
+/-- **exactly once**: when the generator stops, its output lists the language without repetition -/
+theorem C02_HS_exactly_once (E : Env S Unit Rat) (rank : NT S Unit → Nat) (C : CompHyp E rank) (fuel k : Nat)
+    (g' : Gen S Unit Rat) (out : List Prog) (h : take E fuel k (Gen.new E.G) [] = some (g', out, true)) :
+    out.Nodup ∧ ∀ p, p ∈ out ↔ contains E.G p = true :=
+  ⟨C02_HS_nodup E C.nofilter fuel k g' out true h,
+   fun p => ⟨fun hp => C02_HS_sound E C.init.rows fuel k g' out true h p hp,
+             fun hp => C02_HS_complete E rank C fuel k g' out h p hp⟩⟩
+
+/-- the inner statement: in a quiescent state, a non-terminal whose heap is empty has popped
+    every program derivable from it -/
+theorem C02_HS_exhausted_complete (E : Env S Unit Rat) (rank : NT S Unit → Nat) (H : OrdHyp E rank)
+    (hcl : Closed E.G) (H0 : NT S Unit → List (Rat × Prog)) (s : St S Unit Rat) (Q : Quiet E H0 s)
+    (nt : NT S Unit) (hempty : s.heapOf nt = []) (p : Prog) (hg : gen E.G p nt = true) :
+    ∃ k, AList.lookup k (s.succOf nt) = some p :=
+  exhausted_complete H hcl Q _ nt rfl hempty p hg
+
+/-- **TERMINATION of the generator loop, partial**: if the prologue of `generator()` (max-priority
+    tables, initial heaps, first queries) returns for the given fuel, and the fuel is at least
+    `(rank start + 1) * (max arity + 5)`, the generator raises `StopIteration` after finitely many `next`:
+    every `next` returns (`HS.query_total`: the nesting of `query` / `__add_successors__` is bounded by the
+    rank) and the yielded programs are distinct members of a finite language.
+    FULL statement = the same without `hpro`; what is missing is that the prologue itself returns
+    with enough fuel (termination of `__init_non_terminal__` / `_reevaluate_` / `__init_heap__`). -/
+theorem C02_HS_stops_partial (E : Env S Unit Rat) (rank : NT S Unit → Nat) (C : CompHyp E rank) (fuel : Nat)
+    (hfuel : (rank E.G.start + 1) * (maxArity E.G + 5) ≤ fuel)
+    (hpro : prologue E fuel (St.empty E.G) ≠ none) :
+    ∃ k g' out, take E fuel k (Gen.new E.G) [] = some (g', out, true) :=
+  take_stops E rank C fuel hfuel hpro
+
+/-- together: the generator stops and its output is the language, each program once -/
+theorem C02_HS_total_partial (E : Env S Unit Rat) (rank : NT S Unit → Nat) (C : CompHyp E rank) (fuel : Nat)
+    (hfuel : (rank E.G.start + 1) * (maxArity E.G + 5) ≤ fuel)
+    (hpro : prologue E fuel (St.empty E.G) ≠ none) :
+    ∃ k g' out, take E fuel k (Gen.new E.G) [] = some (g', out, true) ∧
+      out.Nodup ∧ ∀ p, p ∈ out ↔ contains E.G p = true := by
+  obtain ⟨k, g', out, h⟩ := take_stops E rank C fuel hfuel hpro
+  exact ⟨k, g', out, h, C02_HS_exactly_once E rank C fuel k g' out h⟩
+
+/-- **the prologue of `generator()` returns** with fuel `HS.enoughFuel` =
+    (1 + max rank) * (max arity + max row length + 5) -/
+theorem C02_HS_prologue_total (E : Env S Unit Rat) (rank : NT S Unit → Nat) (C : CompHyp E rank)
+    (hstart : E.G.start ∈ AList.keys E.G.rules) (fuel : Nat) (hfuel : enoughFuel E.G rank ≤ fuel) :
+    ∃ s0, prologue E fuel (St.empty E.G) = some s0 := prologue_total E rank C hstart fuel hfuel
+
+/-- **C02 FOR HEAP SEARCH ON ACYCLIC CONTEXT-FREE GRAMMARS (full statement)**: for every fuel at least
+    `HS.enoughFuel` there is a number `k` of `next` steps after which the generator has stopped, and its
+    output is a permutation of the language of the grammar (`lang`: the duplicate-free list of the
+    members, `C04_lang`): every program exactly once.
+    Hypotheses `HS.CompHyp` (decidable on a literal grammar: `HS.compHyp_of_checks`) and "the start symbol
+    has a row".  Heap search = `HeapSearch` with threshold 0 and no filter. -/
+theorem C02_HS_full (E : Env S Unit Rat) (rank : NT S Unit → Nat) (C : CompHyp E rank)
+    (hstart : E.G.start ∈ AList.keys E.G.rules) (fuel : Nat) (hfuel : enoughFuel E.G rank ≤ fuel) :
+    ∃ k g' out, take E fuel k (Gen.new E.G) [] = some (g', out, true) ∧
+      out.Perm (lang E.G (rank E.G.start + 1) E.G.start) := by
+  obtain ⟨k, g', out, h⟩ := take_total E rank C hstart fuel hfuel
+  refine ⟨k, g', out, h, ?_⟩
+  obtain ⟨hnd, hmem⟩ := C02_HS_exactly_once E rank C fuel k g' out h
+  apply (List.perm_ext_iff_of_nodup hnd (lang_nodup E.G C.init.rows _ _)).mpr
+  intro p
+  rw [hmem p, contains_eq_gen]
+  constructor
+  · intro hg; exact mem_members C p hg
+  · intro hm; exact gen_of_mem_lang E.G C.init.rows _ p _ hm
+
+def cRank (nt : NT Nat Unit) : Nat := 1 - nt.2.1
+
+theorem cE_hyp : CompHyp cE cRank :=
+  compHyp_of_checks cE cRank rfl (by decide +kernel) (by decide) (by decide) (by decide) (by decide)
+    (by decide +kernel) (by decide) (fun _ => rfl)
+
+example : ∃ k g' out, take cE 50 k (Gen.new cG) [] = some (g', out, true) ∧
+    out.Nodup ∧ ∀ p, p ∈ out ↔ contains cG p = true :=
+  C02_HS_total_partial cE cRank cE_hyp 50 (by decide) (by decide +kernel)
+
+/-- the full statement on the example: enough fuel is 2 * (2 + 2 + 5) = 18 -/
+example : ∃ k g' out, take cE 18 k (Gen.new cG) [] = some (g', out, true) ∧
+    out.Perm (lang cG 2 cG.start) :=
+  C02_HS_full cE cRank cE_hyp (by decide) 18 (by decide)
+
+/-- on the example grammar the generator stops after its 5 programs, which are exactly the language -/
+example : ∀ g' out, take cE 50 10 (Gen.new cG) [] = some (g', out, true) →
+    out.Nodup ∧ ∀ p, p ∈ out ↔ contains cG p = true :=
+  fun g' out h => C02_HS_exactly_once cE cRank cE_hyp 50 10 g' out h
+end Complete
+
+/-! ### finding: heap search stops early on a recursive grammar (max-priority tables out of sync) -/
+section Reentrant
+open PS.HS
+def rInt : Ty := .base "t"
+def rF : Sym := Sym.prim "F" (.arrow rInt (.arrow rInt rInt))
+def rg : Sym := Sym.prim "g" (.arrow rInt rInt)
+def rb : Sym := Sym.prim "b" rInt
+def rc : Sym := Sym.prim "c" rInt
+def rn (k : Nat) : NT Nat Unit := (rInt, (k, ()))
+/-- `CFG.infinite(DSL{F : t1 -> t1 -> t0, b : t0, g : t0 -> t1, c : t1}, t0, n_gram=2)` -/
+def rG2 : TT Nat Unit := ⟨rn 0, [(rn 0, [(rb, ([], ())), (rF, ([(rInt, 1), (rInt, 2)], ()))]),
+  (rn 1, [(rc, ([], ())), (rg, ([(rInt, 3)], ()))]), (rn 2, [(rc, ([], ())), (rg, ([(rInt, 3)], ()))]),
+  (rn 3, [(rb, ([], ())), (rF, ([(rInt, 1), (rInt, 2)], ()))])]⟩
+def rW2 : AList (NT Nat Unit) (AList Sym Rat) := [(rn 0, [(rb, 1/64), (rF, 63/64)]), (rn 1, [(rc, 1/2), (rg, 1/2)]),
+  (rn 2, [(rc, 1/2), (rg, 1/2)]), (rn 3, [(rb, 1/64), (rF, 63/64)])]
+def rE2 : Env Nat Unit Rat := { G := rG2, W := rW2, ops := probOps 0, filter := fun _ => true }
+def rLost : Prog := .node rF [.node rg [.node rF [.node rc [], .node rc []]], .node rc []]
+
+/-- (finding C03-F4, recorded under C03 whose statement covers recursive grammars)
+    the language is infinite, heap search stops after 5 programs and never yields the member
+    `(F (g (F c c)) c)`: `_reevaluate_` leaves `max_priority[(S1, g)] = (g b)` although
+    `max_priority[S3]` became `(F c c)` (the tables are out of sync on a recursive grammar), so the
+    initial program `(g b)` of `S1` makes `__add_successors__` call `query(S3, b)` before `b` was
+    generated from `S3` ((I5) fails at initialisation) and `(g (F c c))` is never pushed.
+    Same output on the implementation. -/
+theorem finding_C02_HS_recursive :
+    contains rG2 rLost = true ∧
+    (take rE2 300 8 (Gen.new rG2) []).map (fun r => (r.2.1.length, r.2.2, r.2.1.contains rLost)) = some (5, true, false) := by
+  decide +kernel
+end Reentrant
 
 end PS.C02HS
